@@ -131,7 +131,7 @@ Proof.
     use_p (Hg 10 noin) HR e1 r1 r1' X; [|exact I]. inv_R X nl nl' t Hf r r' Hr; [keep|].
     dtok t o; try keep.
     destruct (Nat.eqb (lvl o) 9 && negb (noin && is_in o)); [|keep].
-    use_p (Hg 9 false) Hr e2 r2 r2' Y; [|exact I]. simpl. auto.
+    use_p (Hg 9 noin) Hr e2 r2 r2' Y; [|exact I]. simpl. auto.
   - (* unary *)
     pose proof HR as HR0. inv_R HR nl nl' t Hf r r' Hr; [apply Hg; constructor|].
     destruct (unop_of_tok t) as [o|].
